@@ -166,3 +166,61 @@ Example C15_example_monitors :
   consumer_accepts 10 (mkCrec true 5 5 40 41 true [5; 6; 8; 9]) = false /\       (* gap *)
   consumer_accepts 10 (mkCrec false 5 5 40 41 false [5; 6]) = false.             (* DespawnOutput did not return *)
 Proof. vm_compute. repeat split; reflexivity. Qed.
+
+(* ---- end to end: device models composed with the relay (Model/EndToEnd.v).  Any number of devices, each executing its
+   own history with the device model of C01-C08/C13/C14 and handing its messages over one at a time with blocking sends;
+   the relay goroutine and the port interleave arbitrarily; channel capacities are arbitrary.  In every reachable state,
+   for every device k: received by the port from k ++ in flight for k ++ still to be sent by k = the stream the device
+   model prescribes for k's history (the messages of every step in order, then the clean-up) - nothing lost, duplicated,
+   reordered or taken from another device.  Tie to the code: the stream stage of the device checks (production
+   capacity, lagging consumer) on top of the stepped correspondence. *)
+From Coq Require Import ZArith.
+From HIDI Require Import Base.AList Model.Device Model.EndToEnd Proofs.EndToEndProofs.
+Local Close Scope N_scope.
+Theorem C15_device_to_port : forall ds port_cap out_cap s,
+  reachable (estep port_cap out_cap) (einit ds) s ->
+  forall k d c h, nth_error (e_devs s) k = Some d -> nth_error ds k = Some (c, h) ->
+    at_port s k ++ in_relay s k ++ remaining d = device_stream c h.
+Proof. exact e2e_stream. Qed.
+Print Assumptions C15_device_to_port.
+
+(* when nothing is left to do anywhere, the port has received exactly that stream from every device *)
+Theorem C15_device_to_port_complete : forall ds port_cap out_cap s,
+  reachable (estep port_cap out_cap) (einit ds) s -> quiescent s ->
+  forall k c h, nth_error ds k = Some (c, h) -> at_port s k = device_stream c h.
+Proof. exact e2e_quiescent. Qed.
+Print Assumptions C15_device_to_port_complete.
+
+(* and that point is always reachable: a state that is not quiescent has an enabled step (the port reads; a blocked
+   sender is blocked only while something is in flight) *)
+Theorem C15_pipeline_progress : forall ds port_cap out_cap s,
+  reachable (estep port_cap out_cap) (einit ds) s -> quiescent s \/ exists l s', estep port_cap out_cap s l = Some s'.
+Proof. exact e2e_progress. Qed.
+Print Assumptions C15_pipeline_progress.
+
+(* non-vacuity: two devices (a key tapped on one, a key held at disconnect on the other) under two different schedules
+   (relay first / devices first) with the production capacities: both runs end quiescent, and the port has received the
+   same per-device streams *)
+Local Open Scope N_scope.
+Definition e2e_cfg (ch : Z) : config :=
+  {| mappings := [{| m_name := 0; m_midi := [((0, 30), {| k_note := 60; k_off := 0 |}); ((0, 31), {| k_note := 62; k_off := 1 |})]; m_analog := [] |}];
+     actions := [(1, Panic)]; exitseq := []; cmode_of := CInterrupt;
+     d_octave := 0%Z; d_semitone := 0%Z; d_channel := ch; d_mapping := 0%nat; d_velocity := 64%Z |}.
+Definition e2e_ds : list (config * list ev) :=
+  [(e2e_cfg 0%Z, [EKey 0 30 1%Z; EKey 0 31 1%Z; EKey 0 30 0%Z; EKey 0 1 1%Z; EKey 0 1 0%Z; EKey 0 31 0%Z]); (e2e_cfg 5%Z, [EKey 0 31 1%Z; EKey 0 30 1%Z; EKey 0 30 0%Z])].
+Definition relay_first : list elabel :=
+  [RelayL Deliver; RelayL (Move 0); RelayL (Move 1); DSend 0; DSend 1; DTake 0; DTake 1; DClose 0; DClose 1]%nat.
+Definition devices_first : list elabel :=
+  [DSend 1; DTake 1; DClose 1; DSend 0; DTake 0; DClose 0; RelayL (Move 1); RelayL (Move 0); RelayL Deliver]%nat.
+Example C15_end_to_end_example :
+  let a := sched 16 8 relay_first 2000 (einit e2e_ds) in
+  let b := sched 16 8 devices_first 2000 (einit e2e_ds) in
+  reachable (estep 16 8) (einit e2e_ds) a /\ reachable (estep 16 8) (einit e2e_ds) b /\ quiescent a /\ quiescent b /\
+  at_port a 0 = at_port b 0 /\ at_port a 1 = at_port b 1 /\
+  (length (at_port a 0) = 133 /\ length (at_port a 1) = 4)%nat /\
+  delivered (o_pipe (e_relay a)) <> delivered (o_pipe (e_relay b)).
+Proof.
+  cbv zeta. split; [apply sched_reachable; constructor|]. split; [apply sched_reachable; constructor|].
+  split; [apply quiescentb_sound; vm_compute; reflexivity|]. split; [apply quiescentb_sound; vm_compute; reflexivity|].
+  vm_compute. repeat split; try reflexivity. discriminate.
+Qed.
